@@ -221,6 +221,30 @@ fn fields_json(f: &syn::Fields) -> String {
     )
 }
 
+/// The arms of the first `match` expression found at statement level of a block (dispatch functions are
+/// one big `match`); lets the oracle compare dispatch bodies as a *set* of arms.
+fn match_arms(block: &syn::Block) -> Vec<String> {
+    fn of_expr(e: &syn::Expr) -> Option<Vec<String>> {
+        match e {
+            syn::Expr::Match(m) => Some(m.arms.iter().map(|a| ts(a)).collect()),
+            syn::Expr::Block(b) => of_block(&b.block),
+            syn::Expr::Paren(p) => of_expr(&p.expr),
+            _ => None,
+        }
+    }
+    fn of_block(b: &syn::Block) -> Option<Vec<String>> {
+        for st in &b.stmts {
+            if let syn::Stmt::Expr(e, _) = st {
+                if let Some(v) = of_expr(e) {
+                    return Some(v);
+                }
+            }
+        }
+        None
+    }
+    of_block(block).unwrap_or_default()
+}
+
 fn sig_json(sig: &syn::Signature) -> String {
     let params: Vec<String> = sig
         .inputs
@@ -285,11 +309,12 @@ fn walk(items: &[syn::Item], path: &str, out: &mut Vec<String>) {
                 fields_json(&s.fields)
             )),
             syn::Item::Fn(f) => out.push(format!(
-                "{{\"k\":\"fn\",\"path\":{},\"sig\":{},\"attrs\":{},\"text\":{}}}",
+                "{{\"k\":\"fn\",\"path\":{},\"sig\":{},\"attrs\":{},\"text\":{},\"arms\":{}}}",
                 js(path),
                 sig_json(&f.sig),
                 attrs_json(&f.attrs),
-                js(&ts(f))
+                js(&ts(f)),
+                jlist(match_arms(&f.block).iter().map(|a| js(a)).collect())
             )),
             syn::Item::Const(c) => out.push(format!(
                 "{{\"k\":\"const\",\"path\":{},\"name\":{},\"value\":{}}}",
@@ -336,9 +361,10 @@ fn walk(items: &[syn::Item], path: &str, out: &mut Vec<String>) {
                     .iter()
                     .filter_map(|x| match x {
                         syn::ImplItem::Fn(f) => Some(format!(
-                            "{{\"sig\":{},\"body\":{}}}",
+                            "{{\"sig\":{},\"body\":{},\"arms\":{}}}",
                             sig_json(&f.sig),
-                            js(&ts(&f.block))
+                            js(&ts(&f.block)),
+                            jlist(match_arms(&f.block).iter().map(|a| js(a)).collect())
                         )),
                         _ => None,
                     })
